@@ -262,7 +262,16 @@ def sig_boolarg(case, res):
 
 def sig_nonincr_model(case, res):
     d = res.detail or {}
-    return str(d.get("what", "")).startswith("model-falsifies-assertion") and gen.opt_get(case, ":incremental") == "false"
+    w = str(d.get("what", ""))
+    return (w.startswith("model-falsifies-assertion") or w.startswith("assignment-differs-from-model")
+            or w.startswith("value-differs-from-model")) and gen.opt_get(case, ":incremental") == "false"
+
+
+def sig_assignment_after_pop(case, res):
+    d = res.detail or {}
+    if not str(d.get("what", "")).startswith("assignment-differs-from-model"):
+        return False
+    return any(c[0] == "pop" for c in case["cmds"][:d.get("cmd_index", 0)])
 
 
 def sig_assignment_unknown(case, res):
@@ -280,6 +289,7 @@ def sig_wrong_sat(pred):
 from . import sigs  # noqa: E402
 SIGNATURES = {"uf-bool-argument-model-error": sig_boolarg,
               "get-assignment-prints-unknown": sig_assignment_unknown,
+              "get-assignment-stale-literal-after-pop": sig_assignment_after_pop,
               "non-incremental-model-of-unconstrained-theory-atom": sig_nonincr_model,
               "ghost-vars-theory-combination-wrong-sat": sig_wrong_sat(sigs.ghost_combination_wrong_sat),
               "uf-bool-argument-theory-combination-wrong-sat": sig_wrong_sat(sigs.boolarg_combination_wrong_sat)}
